@@ -89,6 +89,63 @@ def recvOne (acked : Nat → Nat → Bool) : List Frame → RecvOut
           res := (parseBody .hdrLen3 .len2 rest).map some }
   | fs => { res := (parseBody .hdrLen2 .len1 fs).map some }
 
+/-! ### the sender side of the wire format -/
+
+/-- how an acknowledged message is put on the wire after its Syn: `ReliableSender.send` pickles it
+into ONE frame; `send_data` splits a DatasetTransmitPayload into header + value -/
+inductive Shape where
+  | plain
+  | data
+deriving DecidableEq, Repr
+
+/-- the frames that follow the Syn (`m` = the interned message; for a payload the header and the raw
+value are both determined by it) -/
+def wireBody : Shape → Nat → List Frame
+  | .plain, m => [.msg (.app m)]
+  | .data, m => [.hdr m, .msg (.app m)]
+
+/-- what `_recv_one` makes of `wireBody` -/
+def parsedBody : Shape → Nat → Parsed
+  | .plain, m => .msg (.app m)
+  | .data, m => .payload m (.msg (.app m))
+
+theorem parseBody_wireBody (sh : Shape) (m : Nat) :
+    parseBody .hdrLen3 .len2 (wireBody sh m) = .ok (parsedBody sh m) := by
+  cases sh <;> rfl
+
+theorem wireBody_ne_nil (sh : Shape) (m : Nat) : wireBody sh m ≠ [] := by
+  cases sh <;> simp [wireBody]
+
+/-- the parsed content determines shape and message -/
+theorem parsedBody_inj {sh sh' : Shape} {m m' : Nat} (h : parsedBody sh m = parsedBody sh' m') :
+    sh = sh' ∧ m = m' := by
+  cases sh <;> cases sh' <;> simp [parsedBody] at h <;> simp [h]
+
+theorem parsedBody_inj_msg (sh : Shape) {m m' : Nat} (h : parsedBody sh m = parsedBody sh m') : m = m' :=
+  (parsedBody_inj h).2
+
+theorem parsedBody_shape_ne (m m' : Nat) : parsedBody .plain m ≠ parsedBody .data m' := by
+  simp [parsedBody]
+
+theorem wireBody_inj {sh sh' : Shape} {m m' : Nat} (h : wireBody sh m = wireBody sh' m') :
+    sh = sh' ∧ m = m' := by
+  cases sh <;> cases sh' <;> simp [wireBody] at h <;> simp [h]
+
+theorem parsedBody_ne_ack (sh : Shape) (m i : Nat) : parsedBody sh m ≠ .msg (.ack i) := by
+  cases sh <;> simp [parsedBody]
+
+theorem wireBody_ne_ack (sh : Shape) (m i : Nat) : wireBody sh m ≠ [.msg (.ack i)] := by
+  cases sh <;> simp [wireBody]
+
+/-- **closed form of `_recv_one` on a Syn followed by either wire shape**: the Ack always goes out;
+a Syn seen before: nothing returned, nothing recorded; otherwise the Syn is recorded and the
+content returned — the same for both shapes -/
+theorem recvOne_syn_wireBody (acked : Nat → Nat → Bool) (i a : Nat) (sh : Shape) (m : Nat) :
+    recvOne acked (.syn i a :: wireBody sh m) =
+      if acked i a then { ack := some (a, i), res := .ok none }
+      else { ack := some (a, i), mark := some (i, a), res := .ok (some (parsedBody sh m)) } := by
+  cases sh <;> simp only [recvOne, wireBody, parsedBody, parseBody, Except.map]
+
 /-- The four legal shapes. -/
 inductive Legal : List Frame → Option SynId → Parsed → Prop where
   | plain (m : Msg) : Legal [.msg m] none (.msg m)
